@@ -152,6 +152,7 @@ def records(ck, rnd, circuits, ms, per_circuit_opts=None):
             # history: the SAME circuit object after its port list was reordered (io_nodes is a public list; numbers of nodes and
             # lines unchanged) - a simulator built now follows the new order of ports
             i, j = rnd.sample(range(len(c.io_nodes)), 2)
+            before = gen.circuit_state(c)
             c.io_nodes[i], c.io_nodes[j] = c.io_nodes[j], c.io_nodes[i]
             st2 = lsim.struct(c)
             m = 2
@@ -160,7 +161,8 @@ def records(ck, rnd, circuits, ms, per_circuit_opts=None):
             reuse, strip = rnd.random() < 0.5, rnd.random() < 0.5
             cyc = (1, 2) if any(x for x in st2['seq']) else ()
             recs.append(lsim.record(c, st2, m, lanes, stim, reuse, strip, False, rnd, cycles=cyc))
-            meta.append(dict(circuit=gen.circuit_state(c), m=m, lanes=lanes, stim=stim, reuse=reuse, strip=strip, cb=False, cyc=list(cyc), wide=None, static=False))
+            meta.append(dict(circuit=gen.circuit_state(c), m=m, lanes=lanes, stim=stim, reuse=reuse, strip=strip, cb=False, cyc=list(cyc), wide=None, static=False,
+                             history=dict(before=before, swap=[i, j])))
             ck.count('ports-reordered-between-simulators')
     return recs, meta
 
@@ -226,7 +228,15 @@ def replay_case(ck, case, pids):
         judge_chains(ck, [chains_record(g[0], g[1], g[2], g[3], g[4], o['reuse'], o['strip'], o['cb'])], pids)
         return
     mt = case['input']
-    c = gen.circuit_from_state(mt['circuit'])
+    if mt.get('history'):
+        # the object was simulated in its earlier port order, then two ports were swapped, then a new simulator was built
+        from kyupy.logic_sim import LogicSim
+        c = gen.circuit_from_state(mt['history']['before'])
+        LogicSim(c, sims=8, m=2)
+        i, j = mt['history']['swap']
+        c.io_nodes[i], c.io_nodes[j] = c.io_nodes[j], c.io_nodes[i]
+    else:
+        c = gen.circuit_from_state(mt['circuit'])
     st = lsim.struct(c)
     rec = lsim.record(c, st, mt['m'], mt['lanes'], mt['stim'], mt['reuse'], mt['strip'], mt['cb'], random.Random(ck.seed), cycles=mt.get('cyc', ()), wide=mt.get('wide'), force_warm=mt.get('static', False))
     judge(ck, [rec], [mt], pids)
